@@ -186,7 +186,11 @@ def strategy(tier):
         mode=st.just("sched"),
         main=st.sampled_from(["oneshot", "oneshot", "as_dict"]),
         main_calls=st.lists(st.sampled_from(sorted(PIN) + ["cmdline", "num_fds"]), min_size=1, max_size=4),
-        others=st.lists(st.lists(st.sampled_from(sorted(PIN) + ["cmdline"]), min_size=1, max_size=3),
+        # other threads call plain methods, or open their own oneshot() block /
+        # call as_dict() on the same object ("block:<method>")
+        others=st.lists(st.lists(st.sampled_from(sorted(PIN) + ["cmdline", "block:name", "block:uids",
+                                                                "block:as_dict"]),
+                                 min_size=1, max_size=3),
                         min_size=1, max_size=2),
         mutate=st.booleans(),
         schedule=st.lists(st.tuples(st.integers(0, 3), st.integers(1, 40)),
@@ -268,6 +272,10 @@ def run_seq(case):
                 expanded.append(op)
         for op in expanded:
             kind = op[0]
+            if blocks:
+                # whatever the previous op read inside the open block (also an
+                # as_dict() that ended with an exception) is pinned from here on
+                sync_pins()
             if kind == "enter":
                 cm = p.oneshot()
                 cm.__enter__()
@@ -486,6 +494,20 @@ def run_sched(case):
     labels = set()
 
     with simk.installed(k):
+        # how often the same calls open the shared files in a block when no
+        # other thread is around (identity probes of ppid()/parent() and zombie
+        # probes read stat through other objects / uncached paths)
+        baseline = {}
+        if case["main"] == "oneshot":
+            import threading
+            p0 = psutil.Process(PID)
+            n0 = len(k.log)
+            with p0.oneshot():
+                for m in case["main_calls"]:
+                    call_method(p0, m)
+            for e in k.log[n0:]:
+                if e is not None and e["op"] == "open" and e["path"] in (f"/proc/{PID}/stat", f"/proc/{PID}/status"):
+                    baseline[e["path"]] = baseline.get(e["path"], 0) + 1
         p = psutil.Process(PID)
         p._lock = detsched.CoopLock(sched)
 
@@ -506,10 +528,16 @@ def run_sched(case):
         def main_thread():
             if case["main"] == "oneshot":
                 block["active_since"] = version[0]
+                import threading
+                me = threading.get_ident()
+                n0 = len(k.log)
                 try:
                     with p.oneshot():
                         for m in case["main_calls"]:
                             timed_call(0, m, True)
+                        block["reads"] = [e["path"] for e in k.log[n0:]
+                                          if e is not None and e["op"] == "open" and e["thread"] == me
+                                          and e["path"] in (f"/proc/{PID}/stat", f"/proc/{PID}/status")]
                 finally:
                     pass
                 block["ended_at"] = version[0]
@@ -526,7 +554,16 @@ def run_sched(case):
         def other(i, calls):
             def run():
                 for m in calls:
-                    timed_call(i, m, False)
+                    if m == "block:as_dict":
+                        try:
+                            p.as_dict(attrs=["name", "status"])
+                        except psutil.Error:
+                            pass
+                    elif m.startswith("block:"):
+                        with p.oneshot():
+                            timed_call(i, m.split(":", 1)[1], False)
+                    else:
+                        timed_call(i, m, False)
             return run
 
         def kernel_step():
@@ -548,6 +585,13 @@ def run_sched(case):
                         f"thread {i} raised {e!r}: "
                         + "".join(traceback.format_exception(type(e), e, e.__traceback__))[-600:]
                         + f"; case {case}")
+    reads = block.get("reads") or []
+    for path in set(reads):
+        if reads.count(path) > max(1, baseline.get(path, 0)):
+            raise Violation("read-at-most-once",
+                            f"{path} opened {reads.count(path)} times by the thread that owns the oneshot() block "
+                            f"(the same calls alone in a block: {baseline.get(path, 0)}) "
+                            f"(other threads: {case['others']}); schedule {case['schedule']} sites {sites}")
     for tidx, m, lo, hi, out in records:
         if out[0] == "raised":
             e = out[1]
